@@ -196,7 +196,7 @@ pub open spec fn header_after(p: Prov, alias: u16) -> Seq<u8> {
 impl SubDeviceEeprom {
     pub open spec fn wf(&self) -> bool { self.provider.wf() }
 
-/*@fn file=src/subdevice/eeprom.rs impl="impl<P> SubDeviceEeprom<P>" name=set_station_alias subst="<P>=>@@new_alias.to_le_bytes()=>u16_to_le_bytes(new_alias)@@new_checksum.to_le_bytes()=>u16_to_le_bytes(new_checksum)" props=C14
+/*@fn file=src/subdevice/eeprom.rs impl="impl<P> SubDeviceEeprom<P>" name=set_station_alias subst="new_alias.to_le_bytes()=>u16_to_le_bytes(new_alias)@@new_checksum.to_le_bytes()=>u16_to_le_bytes(new_checksum)" props=C14
     requires self.wf()
     ensures
         // Ok => the alias word (word 4) was written with the new alias, and the checksum word (word 7) with the CRC-8 of
